@@ -629,6 +629,14 @@ func a18ValueTok(v interface{}) string {
 		return strconv.FormatInt(x, 10)
 	case string:
 		return "\"" + hex.EncodeToString([]byte(x)) + "\""
+	case []interface{}:
+		if len(x) == 0 {
+			return "[]"
+		}
+	case []parser.KeyValue:
+		if len(x) == 0 {
+			return "{}"
+		}
 	}
 	return "x" + hex.EncodeToString([]byte(fmt.Sprintf("%#v", v)))
 }
